@@ -233,7 +233,11 @@ def _convert_variable(node_id, var_type, value):
     elif var_type in (datatypes.VISIBLE_STRING, datatypes.UNICODE_STRING):
         return value
     elif var_type in datatypes.FLOAT_TYPES:
-        return float(value)
+        try:
+            return float(value)
+        except ValueError:
+            # A whole number in one of the other spellings
+            return float(int(value, 0))
     else:
         # COB-ID can contain '$NODEID+' so replace this with node_id before converting
         value = value.replace(" ", "").upper()
